@@ -1,13 +1,12 @@
+// govc: contract-based deductive verification of vektra/mockery (see /verif/DESIGN.md).
 package main
 
 import (
-	"fmt"
-	"golang.org/x/tools/go/packages"
+	"os"
+
+	"verif/engine/driver"
 )
 
 func main() {
-	cfg := &packages.Config{Mode: packages.LoadAllSyntax, Dir: "/repo", BuildFlags: []string{"-tags=verif"}}
-	pkgs, err := packages.Load(cfg, "./template", "./template_funcs")
-	fmt.Println(len(pkgs), err)
-	for _, p := range pkgs { fmt.Println(p.PkgPath, len(p.Syntax), p.Errors) }
+	os.Exit(driver.Main(os.Args[1:]))
 }
